@@ -84,6 +84,7 @@ structure Choreo where
   unregSetsErr : Bool      -- unregisterStream stores the error unconditionally
   unregDeletes : Bool
   unblockCloses : Bool     -- unblockPendingWrites closes writeNotify
+  dlKeepsTerminal : Bool   -- the helper goroutine of SetReadDeadline sets the deadline error only `if s.readErr == nil`
   deriving DecidableEq, Repr, Inhabited
 
 def Choreo.expected : Choreo where
@@ -115,6 +116,7 @@ def Choreo.expected : Choreo where
   unregSetsErr := true
   unregDeletes := true
   unblockCloses := true
+  dlKeepsTerminal := true
 
 inductive Holder | rlCH | tcCH | rlDefer
   deriving DecidableEq, Repr, Inhabited
@@ -199,6 +201,7 @@ structure St where
   hsTried : Bool := false
   hsDone : Bool := false
   ctxCancelled : Bool := false
+  lost : List Nat := []             -- streams whose TERMINAL read error was replaced by a late read-deadline expiry (then cleared by the next SetReadDeadline)
   sdAcked : Bool := false           -- shutdownCompletePending || shutdownCompleteReceived: the peer acknowledged our SHUTDOWN
   -- processes
   rl : RL := .reading
@@ -217,6 +220,7 @@ structure St where
 inductive Act
   -- environment
   | envPacket (p : Pkt) | envReadFail | envWriteFail | envCtxCancel | envFire (fail : Bool) | envPoke
+  | envDeadline (sid : Nat)         -- a read deadline armed earlier on stream sid expires now (nobody need be reading)
   | envStart (i : Nat)              -- the application issues call i
   | envServe (i : Nat)              -- blocked caller i is served normally (data / a stream / window space arrives)
   -- the package
@@ -229,7 +233,7 @@ inductive Act
   deriving DecidableEq, Repr, Inhabited
 
 def Act.isEnv : Act → Bool
-  | .envPacket _ | .envReadFail | .envWriteFail | .envCtxCancel | .envFire _ | .envPoke | .envStart _ | .envServe _ => true
+  | .envPacket _ | .envReadFail | .envWriteFail | .envCtxCancel | .envFire _ | .envPoke | .envStart _ | .envServe _ | .envDeadline _ => true
   | _ => false
 
 /-- wake the readers waiting on stream `sid` (every stream if `none`, except those already gone) -/
@@ -296,7 +300,7 @@ def callerStep (ch : Choreo) (s : St) (i : Nat) (arm : Nat) : Option St :=
     match c with
     | .idle _ => none
     | .fin _ _ => none
-    | .rdWait sid woken => if woken then some (setCaller s i (.fin (.rd sid) (readRes s sid))) else none
+    | .rdWait sid woken => if woken && !s.lost.contains sid then some (setCaller s i (.fin (.rd sid) (readRes s sid))) else none
     | .wrBegin =>
       if s.lock.isNone then
         if s.notEst then some (setCaller s i (.fin .wr (.err .notEstablished)))
@@ -348,6 +352,13 @@ def step (ch : Choreo) (s : St) : Act → Option St
   | .envFire f =>
     if s.tc == .idle && !s.timersClosed && s.fuel > 0 then some { s with tc := .spawned f, fuel := s.fuel - 1 } else none
   | .envPoke => if s.tl == .sel && s.fuel > 0 then some { s with tl := .cb, fuel := s.fuel - 1 } else none
+  | .envDeadline sid =>
+    -- before the stream has its terminal error this is the ordinary transient deadline error (not modelled: the reader
+    -- just tries again); afterwards it must leave the terminal error alone
+    if s.fuel > 0 then
+      some { s with fuel := s.fuel - 1,
+                    lost := if ch.dlKeepsTerminal || !(s.unreg || s.gone.contains sid) then s.lost else sid :: s.lost }
+    else none
   | .envStart i =>
     if s.hsDone && s.fuel > 0 then
       match s.callers[i]? with
